@@ -23,6 +23,8 @@ Thorough == Tier = "thorough"
 Nx(r) == (r * 75 + 74) % 65537
 RECURSIVE NxN(_, _)
 NxN(r, k) == IF k = 0 THEN r ELSE NxN(Nx(r), k - 1)
+\* j-th value of a stream derived from r, in constant time (j may be large)
+Hj(r, j) == Nx(Nx((r + 131 * j) % 65537))
 
 \* key set number k: position i holds key 10 + ((i + 2k) mod (V + 3)): consecutive sets share keys at shifted positions
 KeySet(P, k) == [i \in 1..P.V |-> 10 + ((i + 2 * k) % (P.V + 3))]
@@ -84,7 +86,7 @@ Spread(n, k, r1, r2) ==
            a == r2 % (n - (k - 1) * g)
        IN [j \in 1..k |-> a + (j - 1) * g]
 SvcIds == <<0, 1, 5, 255, 256, 65536, 70000, 16777216, 2147483647>>
-GenDigests(r, n) == [j \in 1..n |-> LET q == NxN(r, j) IN
+GenDigests(r, n) == [j \in 1..n |-> LET q == Hj(r, j) IN
                        Dg(SvcIds[(q % 9) + 1], q % 3000, (q \div 3) % 128, (q * 31) % 5000000, (q \div 5) % 3000, GasOf(q * 13 + j))]
 GenBlock(P, s, r, maxCores) ==
   LET r1 == Nx(r) r2 == Nx(r1) r3 == Nx(r2) r4 == Nx(r3) r5 == Nx(r4) r6 == Nx(r5) r7 == Nx(r6) r8 == Nx(r7)
@@ -95,20 +97,20 @@ GenBlock(P, s, r, maxCores) ==
       ng == IF r2 % 5 = 0 THEN 0 ELSE 1 + (r2 % maxCores)
       cores == Spread(P.C, ng, r3, r4)
       gs == [j \in 1..Len(cores) |->
-               LET q == NxN(r5, j)
+               LET q == Hj(r5, j)
                    t == IF q % 3 = 0 THEN (slot \div P.R) * P.R - 1 - (q % P.R) ELSE slot - (q % ((slot % P.R) + 1)) IN
                [slot |-> t, core |-> cores[j], sigs |-> Spread(P.V, 2 + (q % 2), q, Nx(q)), len |-> (q * 97) % 10000000, nexp |-> q % 3073,
                 res |-> GenDigests(Nx(q), 1 + (q % 4))]]
       na == IF r6 % 4 = 0 THEN 0 ELSE r6 % (P.V + 1)
       avs == Spread(P.V, na, r6, r7)
-      as == [j \in 1..Len(avs) |-> [v |-> avs[j], bits |-> [c \in 1..P.C |-> (NxN(r7, j) \div c) % 2]]]
+      as == [j \in 1..Len(avs) |-> [v |-> avs[j], bits |-> [c \in 1..P.C |-> (Hj(r7, j) \div c) % 2]]]
       np == r7 % 4
-      pre == [j \in 1..np |-> <<SvcIds[(NxN(r8, j) % 9) + 1], IF NxN(r8, j) % 7 = 0 THEN 0 ELSE NxN(r8, j) % 5000>>]
+      pre == [j \in 1..np |-> <<SvcIds[(Hj(r8, j) % 9) + 1], IF Hj(r8, j) % 7 = 0 THEN 0 ELSE Hj(r8, j) % 5000>>]
       avc == Spread(P.C, r8 % (maxCores + 1), r3, r5)
-      avail == [j \in 1..Len(avc) |-> [core |-> avc[j], len |-> NxN(r4, j) * 31, nexp |-> NxN(r4, j) % 3073]]
+      avail == [j \in 1..Len(avc) |-> [core |-> avc[j], len |-> Hj(r4, j) * 31, nexp |-> Hj(r4, j) % 3073]]
       nacc == r5 % 4
       accs == Spread(9, nacc, r2, r8)
-      acc == [j \in 1..Len(accs) |-> [s |-> SvcIds[accs[j] + 1], n |-> NxN(r3, j) % 17, u |-> GasOf(NxN(r3, j) * 7)]]
+      acc == [j \in 1..Len(accs) |-> [s |-> SvcIds[accs[j] + 1], n |-> Hj(r3, j) % 17, u |-> GasOf(Hj(r3, j) * 7)]]
   IN [blk |-> Blk(P, slot, r4 % P.V, r3 % 17, pre, gs, as, avail, acc, k2, 1), s |-> [tau |-> slot, k |-> k2]]
 
 RECURSIVE GenBlocks(_, _, _, _, _)
@@ -118,7 +120,7 @@ GenBlocks(P, s, r, left, maxCores) ==
 HistH(P, k, nblocks, maxCores) ==
   LET r0 == NxN((Seed * 211 + k * 13 + P.V) % 65537, 3)
       tau0 == P.E + P.R + (r0 % (3 * P.E))
-      z == [v \in 1..P.V |-> IF r0 % 2 = 0 THEN ValRec(0, 0, 0, 0, 0, 0) ELSE ValRec(NxN(r0, v) % 50, NxN(r0, v) % 70, v % 5, NxN(r0, v) % 900, v % 9, NxN(r0, v) % 40)]
+      z == [v \in 1..P.V |-> IF r0 % 2 = 0 THEN ValRec(0, 0, 0, 0, 0, 0) ELSE ValRec(Hj(r0, v) % 50, Hj(r0, v) % 70, v % 5, Hj(r0, v) % 900, v % 9, Hj(r0, v) % 40)]
   IN Hist(P, tau0, z, [v \in 1..P.V |-> ValRec(v % 4, v % 3, v % 2, v % 11, v % 5, v % 7)], GenBlocks(P, [tau |-> tau0, k |-> 3], r0, nblocks, maxCores))
 FamH(P, count, nblocks, maxCores) == [k \in 1..count |-> HistH(P, k, nblocks, maxCores)]
 
